@@ -95,6 +95,22 @@ fn case_write(day: i64, nod: u64, off: i32, k: usize, acc: &mut Acc) {
     case_write_after(None, day, nod, off, k, acc)
 }
 
+thread_local! {
+    /// a pattern formatted (and discarded) immediately before the next write on this thread
+    static PRED_PATTERN: std::cell::RefCell<Option<String>> = std::cell::RefCell::new(None);
+}
+
+/// the value is first formatted with an arbitrary pattern (result discarded), then written as RFC 3339
+fn case_write_after_format(pattern: &str, day: i64, nod: u64, off: i32, k: usize, acc: &mut Acc) {
+    if let Some(x) = dt_from_off(day, nod, off) {
+        let _ = call(|| x.format(pattern));
+        PRED_PATTERN.with(|p| *p.borrow_mut() = Some(pattern.to_string()));
+        case_write_after(None, day, nod, off, k, acc);
+        PRED_PATTERN.with(|p| *p.borrow_mut() = None);
+        acc.branch("write-after-a-format-call");
+    }
+}
+
 /// `pred`: a day number written (and discarded) immediately before, on the same thread
 fn case_write_after(pred: Option<i64>, day: i64, nod: u64, off: i32, k: usize, acc: &mut Acc) {
     let x = match dt_from_off(day, nod, off) {
@@ -116,7 +132,8 @@ fn case_write_after(pred: Option<i64>, day: i64, nod: u64, off: i32, k: usize, a
     }
     acc.transitions += 2;
     acc.states += 1;
-    let case = || json!({"kind": "write", "day": day, "nod": nod.to_string(), "off": off, "prec": k, "pred": pred});
+    let pred_pattern = PRED_PATTERN.with(|p| p.borrow().clone());
+    let case = || json!({"kind": "write", "day": day, "nod": nod.to_string(), "off": off, "prec": k, "pred": pred, "pred_pattern": pred_pattern});
     let got = call(|| x.format_rfc3339(prec(k)));
     if pred.is_some() {
         acc.branch("write-after-another-value");
@@ -186,7 +203,7 @@ pub fn run(ctx: &Ctx) -> i32 {
     let mut rep = Report::new(ctx);
     rep.rule = "write side: states = (instant, offset, precision); the output must equal the reference RFC 3339 rendering, be accepted by an ABNF recogniser, and parse back to the instant truncated to the precision with the same offset. read side: every string of the bounded ABNF product must be accepted with exactly the denoted instant (fraction truncated to ns) and offset; every single-field mutation to an out-of-range value must be rejected; non-trivial = values with a sub-second part and rejected strings".into();
     rep.assumptions = vec!["second 60, lower-case t/z, year 0000 and non-grammatical strings are not judged here (C14 judges panics on them)".into()];
-    rep.require(&["write-read-roundtrip", "read-accepted", "read-rejected", "write-after-another-value"]);
+    rep.require(&["write-read-roundtrip", "read-accepted", "read-rejected", "write-after-another-value", "write-after-a-format-call"]);
     let checked = PROFILE == "checked";
     let d1 = cal::days_from_civil(1, 1, 1);
     let d9999 = cal::days_from_civil(9999, 12, 31);
@@ -225,6 +242,15 @@ pub fn run(ctx: &Ctx) -> i32 {
         if p >= d1 && p <= d9999 {
             case_write_after(Some(p), d, 45_296_123_456_789, off, k, acc);
         }
+    });
+    // cross-API history: any format call first (every symbol at widths 1..=10), then the RFC 3339 writer
+    let syms = "GyqMwdDeabhHKkmsnXx";
+    let pats: Vec<String> = syms.chars().flat_map(|c| (1..=10usize).map(move |w| c.to_string().repeat(w))).collect();
+    let hv: [(i64, u64, i32); 4] = [(738_276, 45_296_123_456_789, 0), (738_276, 86_399_999_999_999, 19_800), (0, 1, 0), (d9999, 999_999_999, -3_600)];
+    let np = pats.len() as u64;
+    rep.sweep("write right after a format call: 19 symbols x widths 1..=10 x 4 values x 5 precisions", np * 4 * 5, "the RFC 3339 writer must not depend on the pattern formatted before", |i, acc| {
+        let (d, n, o) = hv[(i / 5 % 4) as usize];
+        case_write_after_format(&pats[(i / 20) as usize], d, n, o, (i % 5) as usize, acc);
     });
     let days: Vec<i64> = ab::days_b().into_iter().filter(|d| *d > d1 + 2 && *d < d9999 - 2).collect();
     let nanos = [0u64, 1, 9_999_999, 10_000_000, 999_999_999, 45_296_123_456_789, ab::DAY_NS - 1];
@@ -321,6 +347,7 @@ pub fn run(ctx: &Ctx) -> i32 {
 
 pub fn replay(_op: &str, case: &Value, acc: &mut Acc) -> bool {
     match case["kind"].as_str() {
+        Some("write") if case["pred_pattern"].is_string() => case_write_after_format(case["pred_pattern"].as_str().unwrap(), case["day"].as_i64().unwrap(), case["nod"].as_str().unwrap().parse().unwrap(), case["off"].as_i64().unwrap() as i32, case["prec"].as_u64().unwrap() as usize, acc),
         Some("write") => case_write_after(case["pred"].as_i64(), case["day"].as_i64().unwrap(), case["nod"].as_str().unwrap().parse().unwrap(), case["off"].as_i64().unwrap() as i32, case["prec"].as_u64().unwrap() as usize, acc),
         Some("read") => {
             let s = case["text"].as_str().unwrap();
